@@ -213,6 +213,10 @@ func Observe(label string, x float64, idx ...int) { Observed[nameOf(label, idx)]
 
 func Symbolic() bool { return false }
 
+// Steps is the number of SSA instructions the executor has interpreted so far on this path
+// (0 natively): a deterministic work measure for "polynomial time" obligations.
+func Steps() int { return 0 }
+
 // Concretize forces the executor to fork on every feasible value of x.
 func Concretize(x int) int { return x }
 
